@@ -1,0 +1,251 @@
+//! Verification hooks. Compiled only with `--cfg rs_opw_verif`; inert unless armed.
+//!
+//! - `ScriptedRng`: lets a harness decide every raw draw of the constraint sampler.
+//! - `point`: a yield/record point placed before accesses to the shared `stop` flag.
+//! - `Controlled`: wraps the strategy list so that the strategy race can be run
+//!   under an external scheduler instead of rayon (the closure stays the shipped one).
+//! (Constructors for `LinearAxis` / `Gantry` live in tool.rs next to the private fields.)
+
+use std::cell::RefCell;
+use std::ops::Deref;
+use std::sync::atomic::{AtomicBool, AtomicUsize, Ordering};
+use std::sync::{Arc, Mutex, RwLock};
+
+// ---------------------------------------------------------------- scripted RNG
+
+/// Source of raw 64-bit draws. Called with the running draw index.
+pub type DrawFn = Box<dyn FnMut(usize) -> u64 + Send>;
+
+struct Script {
+    draw: DrawFn,
+    consumed: usize,
+}
+
+thread_local! {
+    static LOCAL_SCRIPT: RefCell<Option<Script>> = const { RefCell::new(None) };
+}
+static GLOBAL_SCRIPT: Mutex<Option<Script>> = Mutex::new(None);
+static GLOBAL_SCRIPT_ARMED: AtomicBool = AtomicBool::new(false);
+
+/// Arm a script for the current thread only. Returns nothing; use `disarm_local_script`.
+pub fn arm_local_script(draw: DrawFn) {
+    LOCAL_SCRIPT.with(|s| *s.borrow_mut() = Some(Script { draw, consumed: 0 }));
+}
+
+/// Disarm the thread-local script, returning the number of raw draws consumed.
+pub fn disarm_local_script() -> usize {
+    LOCAL_SCRIPT.with(|s| s.borrow_mut().take().map_or(0, |s| s.consumed))
+}
+
+/// Arm a process-wide script (used when the sampler runs on threads the harness does not own).
+pub fn arm_global_script(draw: DrawFn) {
+    *GLOBAL_SCRIPT.lock().unwrap() = Some(Script { draw, consumed: 0 });
+    GLOBAL_SCRIPT_ARMED.store(true, Ordering::SeqCst);
+}
+
+pub fn disarm_global_script() -> usize {
+    GLOBAL_SCRIPT_ARMED.store(false, Ordering::SeqCst);
+    GLOBAL_SCRIPT.lock().unwrap().take().map_or(0, |s| s.consumed)
+}
+
+fn scripted_draw() -> Option<u64> {
+    let local = LOCAL_SCRIPT.with(|s| {
+        let mut guard = s.borrow_mut();
+        guard.as_mut().map(|script| {
+            let idx = script.consumed;
+            script.consumed += 1;
+            (script.draw)(idx)
+        })
+    });
+    if local.is_some() {
+        return local;
+    }
+    if GLOBAL_SCRIPT_ARMED.load(Ordering::SeqCst) {
+        let mut guard = GLOBAL_SCRIPT.lock().unwrap();
+        if let Some(script) = guard.as_mut() {
+            let idx = script.consumed;
+            script.consumed += 1;
+            return Some((script.draw)(idx));
+        }
+    }
+    None
+}
+
+/// Random generator that returns scripted raw draws when a script is armed and
+/// delegates to the wrapped generator otherwise.
+pub struct ScriptedRng<R: rand::RngCore> {
+    inner: R,
+}
+
+impl<R: rand::RngCore> ScriptedRng<R> {
+    pub fn new(inner: R) -> Self {
+        ScriptedRng { inner }
+    }
+}
+
+impl<R: rand::RngCore> rand::RngCore for ScriptedRng<R> {
+    fn next_u32(&mut self) -> u32 {
+        match scripted_draw() {
+            Some(v) => (v >> 32) as u32,
+            None => self.inner.next_u32(),
+        }
+    }
+
+    fn next_u64(&mut self) -> u64 {
+        match scripted_draw() {
+            Some(v) => v,
+            None => self.inner.next_u64(),
+        }
+    }
+
+    fn fill_bytes(&mut self, dest: &mut [u8]) {
+        for chunk in dest.chunks_mut(8) {
+            let v = self.next_u64().to_le_bytes();
+            chunk.copy_from_slice(&v[..chunk.len()]);
+        }
+    }
+}
+
+// ------------------------------------------------------- scheduler / recorder
+
+/// External scheduler for the strategy race.
+pub trait Controller: Send + Sync {
+    /// Called by a controlled thread immediately before a shared-flag access.
+    fn point(&self, label: &'static str);
+
+    /// Run `body(i)` for i in 0..n, each on its own controlled thread (or skip some,
+    /// as rayon may once a result exists). `body` returns true when it produced a result.
+    /// Returns the index whose result is to be reported, if any.
+    fn run_parallel(&self, n: usize, body: &(dyn Fn(usize) -> bool + Sync)) -> Option<usize>;
+}
+
+static CONTROLLER_ARMED: AtomicBool = AtomicBool::new(false);
+static CONTROLLER: RwLock<Option<Arc<dyn Controller>>> = RwLock::new(None);
+
+static RECORDER_ARMED: AtomicBool = AtomicBool::new(false);
+static RECORD: Mutex<Vec<(usize, &'static str)>> = Mutex::new(Vec::new());
+
+thread_local! {
+    static CURRENT_ITEM: std::cell::Cell<usize> = const { std::cell::Cell::new(usize::MAX) };
+}
+
+pub fn arm_controller(controller: Arc<dyn Controller>) {
+    *CONTROLLER.write().unwrap() = Some(controller);
+    CONTROLLER_ARMED.store(true, Ordering::SeqCst);
+}
+
+pub fn disarm_controller() {
+    CONTROLLER_ARMED.store(false, Ordering::SeqCst);
+    *CONTROLLER.write().unwrap() = None;
+}
+
+fn controller() -> Option<Arc<dyn Controller>> {
+    if CONTROLLER_ARMED.load(Ordering::SeqCst) {
+        CONTROLLER.read().unwrap().clone()
+    } else {
+        None
+    }
+}
+
+/// Start recording `(item index, label)` events of free-running (rayon) executions.
+pub fn arm_recorder() {
+    RECORD.lock().unwrap().clear();
+    RECORDER_ARMED.store(true, Ordering::SeqCst);
+}
+
+pub fn disarm_recorder() -> Vec<(usize, &'static str)> {
+    RECORDER_ARMED.store(false, Ordering::SeqCst);
+    std::mem::take(&mut *RECORD.lock().unwrap())
+}
+
+/// Index of the strategy the current thread is working on (usize::MAX outside the race).
+pub fn current_item() -> usize {
+    CURRENT_ITEM.with(|c| c.get())
+}
+
+pub fn set_current_item(i: usize) {
+    CURRENT_ITEM.with(|c| c.set(i));
+}
+
+/// Yield / record point. No-op unless a controller or the recorder is armed.
+pub fn point(label: &'static str) {
+    if RECORDER_ARMED.load(Ordering::SeqCst) {
+        RECORD.lock().unwrap().push((current_item(), label));
+    }
+    if current_item() != usize::MAX {
+        if let Some(c) = controller() {
+            c.point(label);
+        }
+    }
+}
+
+/// Wrapper giving a collection an inherent `par_iter()` whose `find_map_any` can be
+/// run under the armed controller. Without a controller it is plain rayon.
+pub struct Controlled<T> {
+    inner: T,
+}
+
+impl<T> Controlled<T> {
+    pub fn new(inner: T) -> Self {
+        Controlled { inner }
+    }
+}
+
+impl<T> Deref for Controlled<T> {
+    type Target = T;
+    fn deref(&self) -> &T {
+        &self.inner
+    }
+}
+
+#[cfg(feature = "collisions")]
+impl<I: Sync> Controlled<Vec<I>> {
+    pub fn par_iter(&self) -> ControlledParIter<'_, I> {
+        ControlledParIter { items: &self.inner }
+    }
+}
+
+#[cfg(feature = "collisions")]
+pub struct ControlledParIter<'a, I: Sync> {
+    items: &'a Vec<I>,
+}
+
+#[cfg(feature = "collisions")]
+impl<'a, I: Sync> ControlledParIter<'a, I> {
+    pub fn find_map_any<F, R>(self, f: F) -> Option<R>
+    where
+        F: Fn(&'a I) -> Option<R> + Sync + Send,
+        R: Send,
+    {
+        use rayon::prelude::*;
+        match controller() {
+            None => self
+                .items
+                .par_iter()
+                .enumerate()
+                .find_map_any(|(i, item)| {
+                    let before = current_item();
+                    set_current_item(i);
+                    let r = f(item);
+                    set_current_item(before);
+                    r
+                }),
+            Some(c) => {
+                let results: Vec<Mutex<Option<R>>> =
+                    self.items.iter().map(|_| Mutex::new(None)).collect();
+                let started = AtomicUsize::new(0);
+                let body = |i: usize| -> bool {
+                    started.fetch_add(1, Ordering::SeqCst);
+                    set_current_item(i);
+                    let r = f(&self.items[i]);
+                    set_current_item(usize::MAX);
+                    let produced = r.is_some();
+                    *results[i].lock().unwrap() = r;
+                    produced
+                };
+                let winner = c.run_parallel(self.items.len(), &body);
+                winner.and_then(|w| results[w].lock().unwrap().take())
+            }
+        }
+    }
+}
